@@ -18,9 +18,19 @@ EXACTLY (no tolerance anywhere: exact rationals of the measured floats on the im
 the model, whose `pinv` is decided by `= 0` in the field - any cut-off, regularisation or overflow in the
 implementation is a disagreement) and the oracle is the closed formula 1/d (0 at zeros) on the case data.
 
+MIXED-PRECISION scopes (`kind` mixed-*): the closed forms with floating parameters (QU rotations and their
+lazy transposes, diagonals, scalars, block-diagonal containers of them) over jax_enable_x64 off / on x the
+representation of the parameters (jax / NumPy arrays in float32 / float64, Python floats) x the dtype of the
+data x the magnitude of the parameters (angles up to 1e6 rad, entries from 1e-4 to 1e6, generic values).
+Not expressible exactly in the model: implementation-side oracle only (oracle_mixed) - A.I(A(x)) = x = A(A.I(x))
+at the rounding level of the dtypes involved, and mv of A / A.I / A.I.I on the basis and A.I.as_matrix() against
+dense float64 NumPy linear algebra on the matrix computed from the parameters by the closed formula.
+
 The clause "A.I(y) solves A z = y to the configured solver tolerance" (lineax CG in floating point) is
 NOT a theorem: `extra()` tests it numerically (reported under numerical_tests_not_proof), with the
-configuration established by a single block AND by nested / sibling `with Config(...)` blocks.
+configuration established by a single block AND by nested / sibling `with Config(...)` blocks, and (kind
+cg-seq) on SEQUENCES of differently configured inverses of identical array structure passed as ARGUMENTS to
+one jitted function (the configuration is static pytree metadata, i.e. part of the jit cache key).
 """
 from __future__ import annotations
 
@@ -479,6 +489,336 @@ def mag_cases(rng, quick: bool):
 
 
 # ---------------------------------------------------------------------------------------------
+# MIXED-PRECISION scopes of the closed forms with floating parameters (kind mixed-*): QU rotations (and their
+# lazy transposes), diagonals, scalars and block-diagonal containers of them, over
+#   jax_enable_x64 off / on  x  representation of the PARAMETERS  x  dtype of the DATA  x  magnitude of the
+#   parameters (angles of up to 1e6 rad - unwrapped angles of a rotating plate -, entries from 1e-4 to 1e6).
+# The parameters are generic (not dyadic) numbers, so nothing here is exact: these cases are NOT compared with the
+# Coq model; the oracle (oracle_mixed) compares the real code with dense float64 NumPy linear algebra on the
+# matrix computed from the parameters by the closed formula, at the rounding level of the dtypes involved.
+
+# how a parameter is handed to the constructor: jax arrays, NumPy arrays (kept as they are by the operator:
+# an equinox field), Python floats (weakly typed)
+PKINDS_X64 = ['jnp64', 'np64', 'jnp32', 'np32']
+PKINDS_X32 = ['jnp32', 'np64']
+EPS = {'float32': 2.0 ** -23, 'float64': 2.0 ** -52}
+
+
+def param_dtype(pk: str, x64: bool) -> str:
+    """Precision in which a parameter handed over as `pk` takes part in the arithmetic."""
+    if not x64 or pk in ('jnp32', 'np32'):
+        return 'float32'
+    return 'float64'
+
+
+def param_values(values, pk: str, x64: bool) -> np.ndarray:
+    """REFERENCE: the parameter values that the operator denotes, in float64 (a value handed over in float32, or
+    in any form when jax_enable_x64 is off, is the float32 number nearest to the case datum)."""
+    a = np.asarray(values, dtype=np.float64)
+    return a.astype(np.float32).astype(np.float64) if param_dtype(pk, x64) == 'float32' else a
+
+
+def mk_param(values, pk: str, scalar: bool):
+    jnp = A.J()['jnp']
+    a = np.asarray(values, dtype=np.float64)
+    if scalar:
+        a = a.reshape(())
+    if pk == 'py':
+        return float(a)
+    if pk.startswith('np'):
+        return a.astype(np.float32 if pk == 'np32' else np.float64)
+    return jnp.asarray(a, dtype=jnp.float32 if pk == 'jnp32' else jnp.float64)
+
+
+def build_mixed(d):
+    """Real operator of a mixed-precision description."""
+    j = A.J()
+    k = d['k']
+    if k == 'xrot':
+        s = A.mk_struct({'stokes': d['stokes'], 'shape': d['shape'], 'dtype': d['ddt']})
+        op = j['qu'].QURotationOperator(mk_param(d['angles'], d['pk'], d.get('scalar', False)), s)
+        return op.T if d.get('transposed') else op
+    if k == 'xdiag':
+        return j['diagonal'].DiagonalOperator(mk_param(d['v'], d['pk'], False), axis_destination=d.get('axis', 0),
+                                              in_structure=A.mk_struct(with_dtype(d['s'], d['ddt'])))
+    if k == 'xhomoth':
+        return j['core'].HomothetyOperator(mk_param(d['v'], d['pk'], True), A.mk_struct(with_dtype(d['s'], d['ddt'])))
+    if k == 'xinv':
+        return build_mixed(d['of']).I
+    if k == 'xbdiag':
+        def cont(c):
+            if isinstance(c, list):
+                return [cont(x) for x in c]
+            if 'k' in c:
+                return build_mixed(c)
+            if 'tuple' in c:
+                return tuple(cont(x) for x in c['tuple'])
+            return {kk: cont(vv) for kk, vv in c['dict'].items()}
+        return j['blocks'].BlockDiagonalOperator(cont(d['blocks']))
+    raise ValueError(d)
+
+
+def mixed_ref(d, x64: bool) -> np.ndarray:
+    """CLOSED FORMULA (independent of the implementation): the dense float64 matrix of a mixed description, from
+    its parameters; inputs and outputs flattened leaf after leaf (I, Q, U, V for Stokes pytrees)."""
+    import scipy.linalg
+
+    k = d['k']
+    if k == 'xrot':
+        n = int(np.prod(d['shape']))
+        a = param_values(d['angles'], d['pk'], x64).reshape(-1)
+        a = np.full(n, a[0]) if d.get('scalar') else a
+        assert a.shape == (n,)
+        st = d['stokes']
+        m = np.eye(n * len(st))
+        if 'Q' in st:
+            q, u = st.index('Q') * n, st.index('U') * n
+            for i in range(n):
+                c, s = math.cos(2 * a[i]), math.sin(2 * a[i])
+                m[q + i, q + i], m[q + i, u + i], m[u + i, q + i], m[u + i, u + i] = c, -s, s, c
+        return m.T if d.get('transposed') else m
+    if k == 'xdiag':
+        v = param_values(d['v'], d['pk'], x64)
+        out = []
+        for shp in leaf_shapes(d['s']):
+            ax = d.get('axis', 0) % len(shp)
+            assert shp[ax] == len(v)
+            out += [v[idx[ax]] for idx in np.ndindex(*shp)]
+        return np.diag(np.array(out))
+    if k == 'xhomoth':
+        v = float(param_values(d['v'], d['pk'], x64).reshape(()))
+        return v * np.eye(sum(int(np.prod(s)) for s in leaf_shapes(d['s'])))
+    if k == 'xinv':
+        return ref_inverse(mixed_ref(d['of'], x64))
+    if k == 'xbdiag':
+        def walk(c):
+            kids = mag_children(c)
+            if kids is None:
+                return [mixed_ref(c, x64)]
+            return [m for kid in kids for m in walk(kid)]
+        return scipy.linalg.block_diag(*walk(d['blocks']))
+    raise ValueError(d)
+
+
+def ref_inverse(m: np.ndarray) -> np.ndarray:
+    """NumPy inverse; Moore-Penrose pseudo-inverse when the matrix (diagonal entries equal to zero) is singular."""
+    if m.size and np.all(np.abs(m).sum(axis=0) != 0) and np.all(np.abs(m).sum(axis=1) != 0):
+        return np.linalg.inv(m)
+    return np.linalg.pinv(m, rcond=1e-40)
+
+
+def mixed_eps(d, x64: bool) -> float:
+    """Coarsest rounding unit among the parameter and data dtypes of a description."""
+    k = d['k']
+    if k == 'xinv':
+        return mixed_eps(d['of'], x64)
+    if k == 'xbdiag':
+        def walk(c):
+            kids = mag_children(c)
+            if kids is None:
+                return mixed_eps(c, x64)
+            return max(walk(kid) for kid in kids)
+        return walk(d['blocks'])
+    return max(EPS[param_dtype(d['pk'], x64)], EPS[d['ddt'] if x64 else 'float32'])
+
+
+def run_mixed(case):
+    """Observation of a mixed-precision case on the real code: dense matrices of A, A.I, A.I.I (mv on the basis, in
+    the dtypes of the structure), A.I.as_matrix(), the two round trips on a vector of small integers."""
+    d = case['mixed']
+    jax = A.J()['jax']
+    assert bool(jax.config.jax_enable_x64) == bool(case.get('x64'))
+    try:
+        op = build_mixed(d)
+    except Exception as e:
+        return {'build_error': f'{type(e).__name__}: {str(e)[:300]}'}
+    obs = {'op_class': type(op).__name__, 'x64': bool(jax.config.jax_enable_x64)}
+
+    def num(a):
+        a = np.asarray(a, dtype=np.float64)
+        return a.tolist() if np.all(np.isfinite(a)) else [[str(t) for t in r] for r in np.atleast_2d(a)]
+
+    def attempt(key, f):
+        try:
+            obs[key] = f()
+        except Exception as e:
+            obs[key] = f'{type(e).__name__}: {str(e)[:300]}'
+
+    attempt('M', lambda: num(A.dense(op)))
+    try:
+        inv = op.I
+    except Exception as e:
+        obs['I_error'] = f'{type(e).__name__}: {str(e)[:300]}'
+        return obs
+    obs['inv_class'] = type(inv).__name__
+    obs['square'] = A.struct_repr(op.in_structure()) == A.struct_repr(op.out_structure())
+    attempt('N', lambda: num(A.dense(inv)))
+    attempt('as_matrix', lambda: num(np.asarray(inv.as_matrix())))
+    attempt('II', lambda: num(A.dense(inv.I)))
+    n = A.struct_size(op.in_structure())
+    xv = [XVEC[i % len(XVEC)] for i in range(n)]
+    x = tree_from_flat(op.in_structure(), xv)
+    obs['x'] = xv
+    attempt('rt_left', lambda: num(A.flat(inv(op(x)))))
+    attempt('rt_right', lambda: num(A.flat(op(inv(x)))))
+    leaves = jax.tree.leaves(inv(op(x))) if not isinstance(obs['rt_left'], str) else []
+    obs['rt_dtypes'] = sorted({str(l.dtype) for l in leaves})
+    return obs
+
+
+def unfrac(v) -> np.ndarray:
+    """Canonical JSON numbers (integers / 'n/d' strings), nested, -> float64 array (ValueError on 'nan' / 'inf')."""
+    if isinstance(v, list):
+        return np.array([unfrac(t) for t in v], dtype=np.float64)
+    return np.float64(float(Fraction(v)))
+
+
+def oracle_mixed(case, obs):
+    if 'build_error' in obs:
+        return f'the operand cannot be constructed: {obs["build_error"]}'
+    d, x64 = case['mixed'], bool(case.get('x64'))
+    cls = obs['op_class']
+    if 'I_error' in obs:
+        return f'inverse() of a square {cls} raised {obs["I_error"]}'
+    M = mixed_ref(d, x64)
+    N = ref_inverse(M)
+    eps = mixed_eps(d, x64)
+    tol = 16 * eps
+    n = M.shape[0]
+    ctx = f'(jax_enable_x64 = {x64}; rounding unit of the dtypes involved {eps:.1e})'
+
+    def mat(key, what):
+        v = obs.get(key)
+        if isinstance(v, str) or v is None:
+            return None, f'{what} cannot be computed: {v}'
+        try:
+            return unfrac(v), None
+        except (ValueError, ZeroDivisionError):
+            return None, f'{what} contains NaN or Inf: {v}'
+
+    def close(got, want, what, factor=1.0):
+        if got.shape != want.shape:
+            return f'{what} has shape {got.shape}, expected {want.shape}'
+        scale = np.maximum(np.abs(want).max(axis=1, keepdims=True), np.abs(want))
+        bad = np.abs(got - want) > factor * tol * scale + 1e-300
+        if bad.any():
+            i, jx = map(int, np.argwhere(bad)[0])
+            return (f'{what}: entry [{i}][{jx}] is {float(got[i, jx])!r}, the float64 NumPy reference computed from the parameters has '
+                    f'{float(want[i, jx])!r} (difference {abs(got[i, jx] - want[i, jx]):.3e}, allowed {factor * tol * float(scale[i, jx]):.3e}) {ctx}')
+        return None
+
+    Mi, msg = mat('M', f'the matrix of the operand ({cls})')
+    if msg:
+        return msg
+    Ni, msg = mat('N', f'the matrix of {cls}.I')
+    if msg:
+        return msg
+    if Mi.shape != M.shape or Ni.shape != M.shape:
+        return f'the matrices of {cls} and {cls}.I have shapes {Mi.shape} and {Ni.shape}, expected {M.shape}'
+    # 1. the property on the implementation alone: A.I(A(x)) = x = A(A.I(x)) (x projected on the non-zero entries of a diagonal)
+    P = N @ M
+    x = np.array(obs['x'], dtype=np.float64)
+    want = P @ x
+    for key, what in (('rt_left', 'A.I(A(x))'), ('rt_right', 'A(A.I(x))')):
+        y, msg = mat(key, what)
+        if msg:
+            return msg
+        err = float(np.abs(y.reshape(-1) - want).max()) if y.size == want.size else float('inf')
+        if err > 4 * tol * float(np.abs(x).max()):
+            return (f'{what} differs from x by {err:.3e} (> {4 * tol * float(np.abs(x).max()):.3e}) for A = {cls}, x = {obs["x"]}: got '
+                    f'{y.reshape(-1).tolist()} {ctx}')
+    for prod, what in ((Ni @ Mi, 'mat(A.I) @ mat(A)'), (Mi @ Ni, 'mat(A) @ mat(A.I)')):
+        if np.abs(prod - P).max() > 4 * tol:
+            return (f'{what} (mv of {cls}.I and of {cls} on the basis) is not the identity: max deviation {np.abs(prod - P).max():.3e} '
+                    f'> {4 * tol:.3e} {ctx}')
+    # 2. against the closed formula on the parameters: the matrix of A, and A.I = NumPy inverse of that matrix
+    msg = close(Mi, M, f'the matrix of the operand ({cls}, mv on the basis)')
+    if msg:
+        return msg
+    msg = close(Ni, N, f'{cls}.I applied to the basis is not the inverse of the matrix of {cls}')
+    if msg:
+        return msg
+    Ai, msg = mat('as_matrix', f'{cls}.I.as_matrix()')
+    if msg:
+        return msg
+    msg = close(Ai, N, f'{cls}.I.as_matrix() is not the inverse of the matrix of {cls}', factor=8.0)
+    if msg:
+        return msg
+    IIi, msg = mat('II', f'the matrix of {cls}.I.I')
+    if msg:
+        return msg
+    return close(IIi, M, f'{cls}.I.I does not denote the operand', factor=2.0)
+
+
+def mixed_angles(rng, mag: float, n: int):
+    """Generic angles of magnitude up to `mag` rad (three significant decimal digits beyond the integer part: neither
+    dyadic nor representable in float32 when large)."""
+    return [round(rng.uniform(-1, 1) * mag, 3) + rng.choice([0.0123, -0.0457, 0.3331]) for _ in range(n)]
+
+
+def mixed_entries(rng, n: int, zeros: bool):
+    out = []
+    for _ in range(n):
+        if zeros and rng.random() < 0.25:
+            out.append(0.0)
+        else:
+            out.append(rng.choice([-1, 1]) * round(10 ** rng.uniform(-4, 6) * (1 + rng.random()), 9))
+    return out
+
+
+def mixed_cases(rng, quick: bool):
+    out = []
+    combos = [(False, pk, 'float32') for pk in PKINDS_X32] + [(True, pk, ddt) for pk in PKINDS_X64 for ddt in ('float32', 'float64')]
+    mags = [1.0, 40.0, 2.0e3, 4.5e4, 1.0e6]
+    stokes = ['QU', 'IQU', 'IQUV']
+    k = 0
+
+    def add(kind, x64, desc):
+        nonlocal k
+        k += 1
+        out.append({'kind': kind, 'name': f'X{k}', 'mixed': desc, 'x64': x64})
+
+    reps = 1 if quick else 4
+    for x64, pk, ddt in combos:
+        for mi, mag in enumerate(mags):
+            for r in range(reps):
+                # vectors of angles, one per sample; every Stokes class; the operand R and the operand R.T
+                n = rng.randint(1, 3)
+                st = stokes[(mi + r + k) % 3]
+                add('mixed-rotation', x64, {'k': 'xrot', 'stokes': st, 'shape': [n], 'angles': mixed_angles(rng, mag, n), 'pk': pk,
+                                            'ddt': ddt, 'transposed': (mi + r) % 2 == 1})
+            # a scalar angle broadcast over the samples (array of shape () or a Python float)
+            add('mixed-rotation', x64, {'k': 'xrot', 'stokes': stokes[mi % 3], 'shape': [2], 'angles': mixed_angles(rng, mag, 1), 'scalar': True,
+                                        'pk': 'py' if mi % 2 else pk, 'ddt': ddt, 'transposed': mi % 3 == 0})
+        for r in range(2 * reps):
+            n = rng.randint(2, 4)
+            add('mixed-diagonal', x64, {'k': 'xdiag', 'v': mixed_entries(rng, n, r % 2 == 0), 's': [n], 'pk': pk, 'ddt': ddt})
+        add('mixed-diagonal', x64, {'k': 'xdiag', 'v': mixed_entries(rng, 2, False), 's': [2, 3], 'axis': 0, 'pk': pk, 'ddt': ddt})
+        add('mixed-diagonal', x64, {'k': 'xdiag', 'v': mixed_entries(rng, 3, True), 's': {'list': [[2, 3], [3]]}, 'axis': -1, 'pk': pk, 'ddt': ddt})
+        add('mixed-diagonal', x64, {'k': 'xinv', 'of': {'k': 'xdiag', 'v': mixed_entries(rng, 3, True), 's': [3], 'pk': pk, 'ddt': ddt}})
+        for r in range(2 * reps):
+            add('mixed-scalar', x64, {'k': 'xhomoth', 'v': mixed_entries(rng, 1, False)[0], 's': [[2], {'stokes': 'IQU', 'shape': [1]}][r % 2],
+                                      'pk': 'py' if r % 3 == 2 else pk, 'ddt': ddt})
+        # block-diagonal containers mixing the classes and the parameter representations (the data dtype is that of the combination)
+        for r in range(reps):
+            pks = PKINDS_X64 if x64 else PKINDS_X32
+            blocks = []
+            for _ in range(rng.randint(2, 3)):
+                t = rng.random()
+                p = rng.choice(pks)
+                if t < 0.4:
+                    blocks.append({'k': 'xrot', 'stokes': rng.choice(stokes), 'shape': [1], 'angles': mixed_angles(rng, rng.choice(mags), 1),
+                                   'pk': p, 'ddt': ddt, 'transposed': rng.random() < 0.3})
+                elif t < 0.8:
+                    blocks.append({'k': 'xdiag', 'v': mixed_entries(rng, 2, True), 's': [2], 'pk': p, 'ddt': ddt})
+                else:
+                    blocks.append({'k': 'xhomoth', 'v': mixed_entries(rng, 1, False)[0], 's': [2], 'pk': p, 'ddt': ddt})
+            cont = [blocks, {'tuple': blocks}, {'dict': {f'k{i}': b for i, b in enumerate(blocks)}}][r % 3]
+            add('mixed-blockdiag', x64, {'k': 'xbdiag', 'blocks': cont})
+    return out
+
+
+# ---------------------------------------------------------------------------------------------
 # implementation side
 
 
@@ -584,6 +924,11 @@ class Check(PropertyCheck):
         'and x64-mode cases run in helper processes started with JAX_ENABLE_X64=1; in the quick tier 3/4 of the cases with '
         'an exponent beyond +-160 are checked by the exact oracle only (model arithmetic on 300-digit rationals is slow), '
         'all of them are compared with the model in the thorough tier',
+        'mixed-precision cases (kind mixed-*) are NOT compared with the Coq model (generic parameter values, float32 / float64 '
+        'mixtures): the oracle is dense float64 NumPy linear algebra (closed formula of the matrix from the case parameters, '
+        'numpy.linalg.inv / pinv) with the tolerance 16 * eps of the coarsest dtype among parameters and data (x 4 on round trips '
+        'and products, x 8 on as_matrix() of a lazy inverse, which goes through jnp.linalg.inv); the reference rounds a parameter '
+        'to float32 when it is handed over in float32 or when jax_enable_x64 is off',
     ]
 
     def translate(self):
@@ -618,6 +963,7 @@ class Check(PropertyCheck):
             out.append({'kind': 'blockdiag-random', 'name': f'RB{k}',
                         'desc': {'k': 'bdiagop', 'blocks': random_container(rng, 0)}})
         out += mag_cases(rng, quick)
+        out += mixed_cases(rng, quick)
         # the exact rational arithmetic of the model on 2^+-1000 is slow (~1.5 s per case): spread those cases over the shards
         rng.shuffle(out)
         self.stats['operands'] = len(out)
@@ -635,6 +981,10 @@ class Check(PropertyCheck):
             'leaves and pytrees, as D.I operands) and block-diagonal operators over random nested containers whose entries are '
             'signed powers of two over the whole normal range of the dtype (ladder dense near eps and at both ends + seeded '
             'uniform exponents), mixed with zeros and ordinary values, in float32, float64 (x64) and float32 under x64. '
+            'MIXED-PRECISION scopes (implementation-side oracle only): QU rotations / lazy transposes (QU, IQU, IQUV; vectors of angles '
+            'and broadcast scalar angles up to 1, 40, 2e3, 4.5e4, 1e6 rad), diagonals (1-d with zeros, along axes of 2-d leaves and '
+            'pytrees, as D.I operands), scalars and block-diagonal containers mixing them, for jax_enable_x64 off / on x parameters '
+            'as jax or NumPy arrays in float32 / float64 or Python floats x float32 / float64 data. '
             'Non-trivial: the result is not a plain InverseOperator of the same object, or is a refusal.'
         )
 
@@ -650,6 +1000,8 @@ class Check(PropertyCheck):
             return cg_delegate(case)
         if case.get('x64') and not A.J()['jax'].config.jax_enable_x64:
             return x64_delegate(case)
+        if 'mixed' in case:
+            return run_mixed(case)
         exact = 'mag' in case
         op = operand(case)
         if isinstance(op, A.Unbuildable):
@@ -756,6 +1108,8 @@ class Check(PropertyCheck):
         return out
 
     def nontrivial(self, case, obs):
+        if 'mixed' in case:
+            return isinstance(obs, dict) and 'N' in obs
         if not isinstance(obs, dict) or 'I' not in obs:
             return False
         o = obs['I']
@@ -770,6 +1124,8 @@ class Check(PropertyCheck):
     def oracle(self, case, obs):
         if str(case.get('kind', '')).startswith('cg'):
             return cg_oracle(case, obs)
+        if 'mixed' in case:
+            return oracle_mixed(case, obs)
         if 'mag' in case and 'build_error' not in obs:
             return oracle_mag(case, obs)
         if 'build_error' in obs:
@@ -829,12 +1185,32 @@ class Check(PropertyCheck):
             raise RuntimeError(f'operands of the alphabet cannot be constructed on this tree: {bad}')
         envv = dict(os.environ)
         envv['JAX_ENABLE_X64'] = '1'
-        p = subprocess.run([sys.executable, str(Path(__file__).resolve()), '--cg', self.tier, str(self.seed)],
-                           capture_output=True, text=True, timeout=1500, env=envv)
-        if p.returncode != 0:
-            raise RuntimeError('CG test process failed: ' + p.stderr[-1500:])
-        rep = json.loads(p.stdout.strip().splitlines()[-1])
-        fails = rep.pop('failures')
+        parts = 4  # helper processes, each running every 4th case of the (deterministic) list
+        procs = [subprocess.Popen([sys.executable, str(Path(__file__).resolve()), '--cg', self.tier, str(self.seed), str(k), str(parts)],
+                                  stdout=subprocess.PIPE, stderr=subprocess.PIPE, text=True, env=envv) for k in range(parts)]
+        rep = {'systems': 0, 'cases': {}, 'worst_residual_over_bound': 0.0, 'sizes': [10 ** 9, 0]}
+        fails = []
+        errors = []
+        for p in procs:
+            try:
+                so, se = p.communicate(timeout=2400)
+            except subprocess.TimeoutExpired:
+                p.kill()
+                so, se = p.communicate()
+                errors.append('timeout: ' + se[-800:])
+                continue
+            if p.returncode != 0:
+                errors.append(se[-1500:])
+                continue
+            r = json.loads(so.strip().splitlines()[-1])
+            fails += r['failures']
+            rep['systems'] += r['systems']
+            for kk, v in r['cases'].items():
+                rep['cases'][kk] = rep['cases'].get(kk, 0) + v
+            rep['worst_residual_over_bound'] = max(rep['worst_residual_over_bound'], r['worst_residual_over_bound'])
+            rep['sizes'] = [min(rep['sizes'][0], r['sizes'][0]), max(rep['sizes'][1], r['sizes'][1])]
+        if errors:
+            raise RuntimeError('CG test process failed: ' + ' | '.join(errors))
         rep['what'] = ('InverseOperator.mv on SPD Gram matrices B^T B + c I of integer matrices (sizes 2-40, condition number '
                        '<= 1e3, float64), several right-hand sides; the configuration (default CG / CG rtol=atol=1e-10 / 1e-8 / '
                        'Jacobi preconditioner / solver_throw / solver_callback) is established through furax.Config by a single block '
@@ -842,8 +1218,21 @@ class Check(PropertyCheck):
                        'in the innermost block and applied inside it, one level up, outside, or inside an unrelated block with a '
                        'loose solver, eagerly and under jit (kind cg-nested); criteria: the inverse holds the configuration in force '
                        'at its creation (reference: dict merge over the plan), |A z - y| <= 10 tol (1 + |y|) with tol = rtol of that '
-                       'configuration, the configured callback ran once and saw the configured max_steps; TESTS of the convergence '
-                       'clause, not a proof')
+                       'configuration, the configured callback ran once and saw the configured max_steps. Kind cg-seq: SEQUENCES '
+                       'of 2-4 differently configured inverses of identical array structure (SPD systems of condition number 1e4, sizes '
+                       '24-40; for the solver options a badly scaled system that the Jacobi preconditioner repairs) passed as ARGUMENTS to one '
+                       'jax.jit / equinox.filter_jit function, each also applied eagerly: the steps differ in ONE static field (rtol and atol / '
+                       'rtol only / atol only / max_steps / solver_throw / solver_callback / solver_options / default vs explicit), in both '
+                       'orders, returning to an earlier configuration, with other operator arrays under the same configuration, applied inside '
+                       'an unrelated Config block, created by one block / nested blocks / inverse() / InverseOperator(); criteria per step: the '
+                       'captured configuration, the residual against ITS tolerance (jit and eager), the configured callback ran once with the '
+                       'configured max_steps, solver_throw with a starved max_steps raises, the jitted and the eager application of the same '
+                       'inverse ran the same number of solver steps (+-10%) and agree when max_steps stops them early. Kind cg-solvers: '
+                       'every solver class of lineax as the configured solver (CG, GMRES, BiCGStab, NormalCG with and without max_steps; LU, QR, '
+                       'SVD, Cholesky; AutoLinearSolver well_posed True / None / False), solver_throw on and off, with furax\'s DEFAULT '
+                       'solver_callback kept or a recording one, applied eagerly, under jit and as an argument of a jitted function on SPD Gram '
+                       'systems (sizes 2-24): the application returns and |A z - y| <= 10 tol (1 + |y|) (tol of the solver; 1e-10 for direct '
+                       'solvers); TESTS of the convergence clause, not a proof')
         return {'cg_solver_clause': rep,
                 'failures': [{'case': f['case'], 'observation': f['observation'], 'oracle': f['oracle'], 'key': None} for f in fails]}
 
@@ -1045,7 +1434,10 @@ def x64_server():
 # open at the end are closed.  The configured tolerance is that of the configuration in force at ['N'],
 # computed by the oracle from the plan alone (dict merge over the defaults, innermost wins).
 
-CG_SOLVERS = {'default': (1e-6, 1e-6, 500), 'tight': (1e-10, 1e-10, 2000), 'mid': (1e-8, 1e-8, 1500), 'loose': (1e-2, 1e-2, 600)}
+CG_SOLVERS = {'default': (1e-6, 1e-6, 500), 'tight': (1e-10, 1e-10, 2000), 'mid': (1e-8, 1e-8, 1500), 'loose': (1e-2, 1e-2, 600),
+              # kind cg-seq: solvers of ONE class that differ from 'tight' in a single parameter (same tree structure)
+              'loose2k': (1e-2, 1e-2, 2000), 'mid2k': (1e-6, 1e-6, 2000), 'rmid': (1e-5, 1e-10, 2000), 'amid': (1e-10, 1e-4, 2000),
+              'long': (1e-10, 1e-10, 5000), 'starved': (1e-10, 1e-10, 3)}
 CG_DEFAULTS = {'solver': 'default', 'options': 'none', 'throw': False, 'callback': 'default'}
 
 
@@ -1117,11 +1509,17 @@ def cg_cases(tier: str, seed: int):
                     Amat = cg_system(rng, n)
                     out.append({'kind': 'cg-nested', 'name': f'{lname}-{s}-{wname}-{n}', 'matrix': Amat.tolist(),
                                 'rhs': rhs_of(Amat, 2), 'plan': pre + post})
+    out += cg_seq_cases(rng, quick)
+    out += cg_solvers_cases(rng, quick)
     return out
 
 
 def run_cg_case(case):
     """Runs the plan on the real code (float64, jax_enable_x64)."""
+    if case.get('kind') == 'cg-seq':
+        return run_cg_seq(case)
+    if case.get('kind') == 'cg-solvers':
+        return run_cg_solvers(case)
     import contextlib
 
     import jax
@@ -1206,6 +1604,343 @@ def run_cg_case(case):
     return obs
 
 
+# kind cg-seq: SEQUENCES of differently configured lazy inverses of identical array structure through ONE jitted
+# function that receives the inverse as an ARGUMENT.  The configuration of an InverseOperator is static metadata
+# (part of the pytree definition, hence of the jit cache key): every field that changes the behaviour of mv (solver
+# class and parameters, solver_throw, solver_options, solver_callback) must distinguish the cache entries.
+#
+# A case: an ill-conditioned SPD system (condition number ~1e4, so that the tolerance matters), right-hand sides,
+# the jit flavour, and steps; a step = {'settings': configuration of this inverse (over the defaults), 'create': how
+# it is established (ctx: one `with Config` block / nested: solver in an outer block, the rest in an inner one /
+# method: op.inverse() / class: InverseOperator(op)), 'scale': the operator is scale * A (same structure, other
+# arrays), 'ambient': the APPLICATION happens inside an unrelated `with Config(loose solver)` block}.
+
+
+def cg_illcond(rng, n, cond=1e4):
+    """Dense SPD matrix with eigenvalues log-spaced over [1/sqrt(cond), sqrt(cond)] in a random orthogonal basis."""
+    q, _ = np.linalg.qr(rng.normal(size=(n, n)))
+    m = q @ np.diag(np.logspace(-0.5 * math.log10(cond), 0.5 * math.log10(cond), n)) @ q.T
+    return (m + m.T) / 2
+
+
+def cg_badly_scaled(rng, n):
+    """S B S with B SPD of condition number ~30 and S = diag(10^-1.5 .. 10^1.5): condition number > 1e4, brought back to ~30 by the
+    Jacobi preconditioner (the solver options change the number of iterations several-fold)."""
+    s = np.diag(np.logspace(-1.5, 1.5, n)[rng.permutation(n)])
+    m = s @ cg_illcond(rng, n, cond=30.0) @ s
+    return (m + m.T) / 2
+
+
+def cg_seq_cases(rng, quick: bool):
+    T, L = {'solver': 'tight'}, {'solver': 'loose2k'}
+    ST = {'solver': 'starved'}
+    seqs = {
+        'loose-then-tight': [L, T], 'tight-then-loose': [T, L], 'mid-then-tight': [{'solver': 'mid2k'}, T],
+        'rtol-only': [{'solver': 'rmid'}, T], 'atol-only': [{'solver': 'amid'}, T], 'tight-then-rtol-only': [T, {'solver': 'rmid'}],
+        'max-steps-more': [ST, T], 'max-steps-less': [T, ST], 'max-steps-long': [{'solver': 'long'}, ST, T],
+        'throw-on': [ST, {**ST, 'throw': True}], 'throw-off': [{**ST, 'throw': True}, ST], 'throw-tight': [{**T, 'throw': True}, L],
+        'callback': [{**T, 'callback': 'rec'}, {**T, 'callback': 'rec2'}, {**T, 'callback': 'quiet'}],
+        'options-on': [T, {**T, 'options': 'jacobi'}], 'options-off': [{**T, 'options': 'jacobi'}, T],
+        # two preconditioners of identical structure holding different arrays (diag^-1 and diag^-1/2)
+        'options-arrays': [{**T, 'options': 'jacobi-half'}, {**T, 'options': 'jacobi'}, {**T, 'options': 'jacobi-half'}],
+        'default-then-tight': [{}, T], 'loose-then-default': [L, {}],
+        'back-and-forth': [L, T, L, T],
+        'other-arrays': [T, {**T, '_scale': 2}, {**L, '_scale': 2}, {**T, '_scale': 0.5}],
+        'ambient': [L, {**T, '_ambient': True}, {**L, '_ambient': True}],
+    }
+    creates = ['ctx', 'nested', 'method', 'class']
+    out = []
+    k = 0
+    for rep_ in range(1 if quick else 4):
+        for name, seq in seqs.items():
+            k += 1
+            n = (24, 40, 32)[k % 3]
+            M = cg_badly_scaled(rng, n) if name.startswith('options') else cg_illcond(rng, n)
+            rhs = [rng.integers(-4, 5, size=n).astype(np.float64).tolist(), (M @ np.arange(1, n + 1)).tolist()][: 1 if quick else 2]
+            steps = []
+            for i, st in enumerate(seq):
+                settings = {kk: v for kk, v in st.items() if not kk.startswith('_')}
+                if st:  # ({}: the default configuration, no Config block at all)
+                    # ONE recording callback for all the steps of a sequence: the steps differ in the field under test only
+                    settings.setdefault('callback', 'rec' if k % 2 else 'rec2')
+                steps.append({'settings': settings, 'create': 'ctx' if not settings else creates[(i + k + rep_) % 4],
+                              'scale': st.get('_scale', 1), 'ambient': bool(st.get('_ambient'))})
+            out.append({'kind': 'cg-seq', 'name': f'{name}-{n}-{rep_}', 'matrix': M.tolist(), 'rhs': rhs,
+                        'jit': 'eqx' if (k + rep_) % 4 == 0 else 'jax', 'steps': steps})
+    return out
+
+
+def run_cg_seq(case):
+    import contextlib
+
+    import equinox
+    import jax
+    import jax.numpy as jnp
+    import lineax as lx
+
+    from furax import Config
+    from furax._base.config import ConfigState, default_solver_callback
+    from furax._base.core import InverseOperator
+    from furax._base.dense import DenseBlockDiagonalOperator
+    from furax._base.diagonal import DiagonalOperator
+
+    assert jax.config.jax_enable_x64
+    M = np.array(case['matrix'], dtype=np.float64)
+    n = M.shape[0]
+    sds = jax.ShapeDtypeStruct((n,), jnp.float64)
+    solvers = {k: lx.CG(rtol=v[0], atol=v[1], max_steps=v[2]) for k, v in CG_SOLVERS.items() if k != 'default'}
+    records = []
+
+    def rec(solution):
+        records.append({'callback': 'rec', 'num_steps': int(solution.stats['num_steps']), 'max_steps': int(solution.stats['max_steps'])})
+
+    def rec2(solution):
+        records.append({'callback': 'rec2', 'num_steps': int(solution.stats['num_steps']), 'max_steps': int(solution.stats['max_steps'])})
+
+    def quiet(solution):
+        return None
+
+    callbacks = {'rec': rec, 'rec2': rec2, 'quiet': quiet}
+    apply = (equinox.filter_jit if case['jit'] == 'eqx' else jax.jit)(lambda inverse, v: inverse(v))
+    obs = {'steps': []}
+    for step in case['steps']:
+        Ms = step['scale'] * M
+        op = DenseBlockDiagonalOperator(jnp.asarray(Ms), sds, 'ij,j->i')
+        jacobi = DiagonalOperator(jnp.asarray(1.0 / np.diag(Ms)), in_structure=sds)
+        jacobi_half = DiagonalOperator(jnp.asarray(1.0 / np.sqrt(np.diag(Ms))), in_structure=sds)
+        st = step['settings']
+        kw = {}
+        if 'solver' in st:
+            kw['solver'] = solvers[st['solver']]
+        if 'options' in st:
+            kw['solver_options'] = {'jacobi': {'preconditioner': jacobi}, 'jacobi-half': {'preconditioner': jacobi_half}}.get(st['options'], {})
+        if 'throw' in st:
+            kw['solver_throw'] = st['throw']
+        if 'callback' in st:
+            kw['solver_callback'] = callbacks[st['callback']]
+        how = step['create']
+        with contextlib.ExitStack() as es:
+            if how == 'nested':
+                es.enter_context(Config(**{k: v for k, v in kw.items() if k == 'solver'}))
+                es.enter_context(Config(**{k: v for k, v in kw.items() if k != 'solver'}))
+            elif kw:
+                es.enter_context(Config(**kw))
+            inv = op.inverse() if how == 'method' else (InverseOperator(op) if how == 'class' else op.I)
+        cfg = inv.config
+        sv = cfg.solver
+        pre = cfg.solver_options.get('preconditioner')
+        d = ConfigState().solver
+        so = {'captured': {
+            'solver': next((k for k, v in solvers.items() if v is sv),
+                           'default' if (type(sv), sv.rtol, sv.atol, sv.max_steps) == (type(d), d.rtol, d.atol, d.max_steps) else repr(sv)),
+            'options': 'none' if not cfg.solver_options else (
+                'other' if len(cfg.solver_options) != 1 else 'jacobi' if pre is jacobi else 'jacobi-half' if pre is jacobi_half else 'other'),
+            'throw': bool(cfg.solver_throw),
+            'callback': next((k for k, v in callbacks.items() if v is cfg.solver_callback),
+                             'default' if cfg.solver_callback is default_solver_callback else 'other')}}
+        with contextlib.ExitStack() as es:
+            if step['ambient']:
+                es.enter_context(Config(solver=solvers['loose'], solver_callback=quiet, solver_throw=False))
+            for route, f in (('jit', lambda v: apply(inv, v)), ('eager', lambda v: inv(v))):
+                sols, stats = [], []
+                for y in case['rhs']:
+                    del records[:]
+                    try:
+                        z = np.asarray(f(jnp.asarray(np.array(y, dtype=np.float64))))
+                        jax.effects_barrier()
+                        sols.append([float(t) if np.isfinite(t) else str(t) for t in z])
+                    except Exception as e:
+                        try:
+                            jax.effects_barrier()
+                        except Exception:
+                            pass
+                        sols.append(f'{type(e).__name__}: ' + ' '.join(str(e).split())[:160])
+                    stats.append(list(records))
+                so[route] = {'solutions': sols, 'callback_records': stats}
+        obs['steps'].append(so)
+    return obs
+
+
+def cg_seq_oracle(case, obs):
+    M = np.array(case['matrix'], dtype=np.float64)
+    for i, (step, so) in enumerate(zip(case['steps'], obs['steps'])):
+        exp = {**CG_DEFAULTS, **step['settings']}
+        rtol, atol, max_steps = CG_SOLVERS[exp['solver']]
+        tol = max(rtol, atol)
+        starved = max_steps < 10  # these systems (n >= 24, condition number 1e4) need more than 30 iterations
+        Ms = step['scale'] * M
+        where = (f'step {i} of the sequence {[s["settings"] for s in case["steps"]]} (one {"equinox.filter_jit" if case["jit"] == "eqx" else "jax.jit"}-ted '
+                 f'function taking the inverse as an argument), inverse of {step["scale"]} * A configured with {exp} '
+                 f'(rtol={rtol}, atol={atol}, max_steps={max_steps})')
+        if so['captured'] != exp:
+            return f'{where}: the inverse holds the configuration {so["captured"]}'
+        steps_seen = {}
+        for route in ('jit', 'eager'):
+            app = so[route]
+            for y, z, recs in zip(case['rhs'], app['solutions'], app['callback_records']):
+                if starved and exp['throw']:
+                    if not isinstance(z, str):
+                        return (f'{where}, {route}: solver_throw=True and max_steps={max_steps} cannot reach the tolerance, but A.I(y) returned '
+                                f'silently (callback records {recs}); y = {y}')
+                    continue
+                v = cg_solution(z)
+                if v is None:
+                    return f'{where}, {route}: A.I(y) raised or is not finite: {z}; y = {y}'
+                if exp['callback'] in ('rec', 'rec2'):
+                    if len(recs) != 1 or recs[0]['callback'] != exp['callback']:
+                        return f'{where}, {route}: the configured solver_callback {exp["callback"]} must run once; callbacks that ran: {recs}'
+                    if recs[0]['max_steps'] != max_steps:
+                        return (f'{where}, {route}: the solve ran with max_steps = {recs[0]["max_steps"]}, the configured solver has '
+                                f'max_steps = {max_steps}; y = {y}')
+                    steps_seen.setdefault(json.dumps(y), {})[route] = recs[0]['num_steps']
+                elif recs:
+                    return f'{where}, {route}: a solver_callback that is not the configured one ({exp["callback"]}) ran: {recs}'
+                if not starved:
+                    res = float(np.linalg.norm(Ms @ v - np.array(y, dtype=np.float64)))
+                    bound = 10 * tol * (1 + float(np.linalg.norm(y)))
+                    if res > bound:
+                        return (f'{where}, {route}: A.I(y) does not solve A z = y to the configured tolerance: residual |A z - y| = {res:.3e} '
+                                f'exceeds 10*tol*(1+|y|) = {bound:.3e}; y = {y}')
+        for y, zj, ze in zip(case['rhs'], so['jit']['solutions'], so['eager']['solutions']):
+            vj, ve = cg_solution(zj), cg_solution(ze)
+            if starved and vj is not None and ve is not None:
+                if float(np.linalg.norm(vj - ve)) > 1e-6 * (1 + float(np.linalg.norm(ve))):
+                    return (f'{where}: after max_steps = {max_steps} iterations the jitted application returns {vj.tolist()}, the eager application '
+                            f'of the same inverse {ve.tolist()}; y = {y}')
+            ns = steps_seen.get(json.dumps(y), {})
+            if 'jit' in ns and 'eager' in ns and abs(ns['jit'] - ns['eager']) > max(2, 0.1 * ns['eager']):
+                return (f'{where}: the jitted application ran {ns["jit"]} solver steps, the eager application of the SAME inverse {ns["eager"]}: '
+                        f'the jitted call did not solve with the solver / options configured for this inverse; y = {y}')
+    return None
+
+
+# kind cg-solvers: every solver CLASS of lineax as the configured solver (iterative ones with and without an
+# iteration limit, direct ones, the automatic choice), with furax's DEFAULT solver_callback kept (its prints go to
+# the helper's stderr) or a recording one, applied eagerly, under jit (closure) and as an argument of a jitted
+# function: the application must return and solve A z = y to the tolerance of the solver (direct solvers: 1e-10).
+# name -> (class, tolerance or None for a direct solver, max_steps | None: no limit | absent: not a parameter)
+SOLVER_CLASSES = {
+    'cg': ('CG', 1e-8, 500), 'cg-nomax': ('CG', 1e-8, None),
+    'gmres': ('GMRES', 1e-8, 500), 'gmres-nomax': ('GMRES', 1e-8, None),
+    'bicgstab': ('BiCGStab', 1e-8, 500), 'bicgstab-nomax': ('BiCGStab', 1e-8, None),
+    'normalcg': ('NormalCG', 1e-8, 2000), 'normalcg-nomax': ('NormalCG', 1e-8, None),
+    'lu': ('LU',), 'qr': ('QR',), 'svd': ('SVD',), 'cholesky': ('Cholesky',),
+    'auto': ('AutoLinearSolver', True), 'auto-none': ('AutoLinearSolver', None), 'auto-false': ('AutoLinearSolver', False),
+}
+
+
+def mk_solver(name):
+    import lineax as lx
+
+    spec = SOLVER_CLASSES[name]
+    cls = getattr(lx, spec[0])
+    if spec[0] == 'AutoLinearSolver':
+        return cls(well_posed=spec[1])
+    if len(spec) == 1:
+        return cls()
+    kw = {'rtol': spec[1], 'atol': spec[1]}
+    if spec[2] is not None:
+        kw['max_steps'] = spec[2]
+    return cls(**kw)
+
+
+def cg_solvers_cases(rng, quick: bool):
+    out = []
+    k = 0
+    for rep_ in range(1 if quick else 3):
+        for name in SOLVER_CLASSES:
+            for cb in ('default', 'rec'):
+                k += 1
+                if cb == 'rec' and quick and k % 3:
+                    continue
+                # (BiCGStab breaks down - 0 / 0 - when it converges exactly within a few steps: not on tiny systems)
+                n = (12, 17, 12, 24, 9)[k % 5] if name.startswith('bicgstab') else (2, 5, 12, 24, 9)[k % 5]
+                Amat = cg_system(rng, n)
+                rhs = [rng.integers(-4, 5, size=n).astype(np.float64).tolist(), (Amat @ np.arange(1, n + 1)).tolist()]
+                routes = ['eager', 'jit-arg'] + (['jit'] if (k % 2 or not quick) else [])
+                out.append({'kind': 'cg-solvers', 'name': f'{name}-{cb}-{n}-{rep_}', 'matrix': Amat.tolist(), 'rhs': rhs[: 1 if quick else 2],
+                            'solver': name, 'callback': cb, 'throw': bool(k % 4 == 0), 'routes': routes})
+    return out
+
+
+def run_cg_solvers(case):
+    import jax
+    import jax.numpy as jnp
+
+    from furax import Config
+    from furax._base.config import default_solver_callback
+    from furax._base.dense import DenseBlockDiagonalOperator
+
+    assert jax.config.jax_enable_x64
+    Amat = np.array(case['matrix'], dtype=np.float64)
+    n = Amat.shape[0]
+    op = DenseBlockDiagonalOperator(jnp.asarray(Amat), jax.ShapeDtypeStruct((n,), jnp.float64), 'ij,j->i')
+    records = []
+
+    def rec(solution):
+        records.append({k: (None if v is None else int(v)) for k, v in solution.stats.items() if k in ('num_steps', 'max_steps')})
+
+    kw = {'solver': mk_solver(case['solver']), 'solver_throw': case['throw']}
+    if case['callback'] == 'rec':
+        kw['solver_callback'] = rec
+    obs = {'applications': []}
+    try:
+        with Config(**kw):
+            inv = op.I
+    except Exception as e:
+        return {'create_error': f'{type(e).__name__}: ' + ' '.join(str(e).split())[:200]}
+    obs['solver_class'] = type(inv.config.solver).__name__
+    obs['callback_is_default'] = inv.config.solver_callback is default_solver_callback
+    by_arg = jax.jit(lambda inverse, v: inverse(v))
+    for route in case['routes']:
+        f = {'eager': inv, 'jit': jax.jit(lambda v: inv(v)), 'jit-arg': lambda v: by_arg(inv, v)}[route]
+        sols, stats = [], []
+        for y in case['rhs']:
+            del records[:]
+            try:
+                z = np.asarray(f(jnp.asarray(np.array(y, dtype=np.float64))))
+                jax.effects_barrier()
+                sols.append([float(t) if np.isfinite(t) else str(t) for t in z])
+            except Exception as e:
+                try:
+                    jax.effects_barrier()
+                except Exception:
+                    pass
+                sols.append(f'{type(e).__name__}: ' + ' '.join(str(e).split())[:200])
+            stats.append(list(records))
+        obs['applications'].append({'route': route, 'solutions': sols, 'callback_records': stats})
+    return obs
+
+
+def cg_solvers_oracle(case, obs):
+    spec = SOLVER_CLASSES[case['solver']]
+    iterative = len(spec) == 3
+    tol = spec[1] if iterative else 1e-10
+    what = (f'A.I configured with solver = lineax.{spec[0]}' + (f'(rtol=atol={spec[1]}' + (f', max_steps={spec[2]})' if spec[2] is not None else ') without max_steps')
+                                                               if iterative else (f'(well_posed={spec[1]})' if len(spec) == 2 else '()'))
+            + f', solver_throw={case["throw"]}, ' + ('the DEFAULT solver_callback' if case['callback'] == 'default' else 'a recording solver_callback'))
+    if 'create_error' in obs:
+        return f'{what}: creating the inverse raised {obs["create_error"]}'
+    if obs['solver_class'] not in (spec[0], {'NormalCG': 'Normal'}.get(spec[0])) or obs['callback_is_default'] != (case['callback'] == 'default'):
+        return f'{what}: the inverse holds a {obs["solver_class"]} solver, default callback: {obs["callback_is_default"]}'
+    Amat = np.array(case['matrix'], dtype=np.float64)
+    for app in obs['applications']:
+        for y, z, recs in zip(case['rhs'], app['solutions'], app['callback_records']):
+            v = cg_solution(z)
+            if v is None:
+                return f'{what}, applied ({app["route"]}) to y = {y}: A.I(y) raised or is not finite: {z}'
+            res = float(np.linalg.norm(Amat @ v - np.array(y, dtype=np.float64)))
+            bound = 10 * tol * (1 + float(np.linalg.norm(y)))
+            if res > bound:
+                return (f'{what}, applied ({app["route"]}): residual |A z - y| = {res:.3e} exceeds 10*tol*(1+|y|) = {bound:.3e} (tol = {tol}); y = {y}')
+            if case['callback'] == 'rec':
+                if len(recs) != 1:
+                    return f'{what}, applied ({app["route"]}): the configured solver_callback ran {len(recs)} times'
+                if iterative and recs[0].get('max_steps') != spec[2]:
+                    return f'{what}, applied ({app["route"]}): the solve reports max_steps = {recs[0].get("max_steps")}'
+    return None
+
+
 def cg_solution(z):
     """Solution vector of an observation (canonical JSON: integers / 'n/d' strings) or None (exception, NaN, Inf)."""
     if isinstance(z, str):
@@ -1227,6 +1962,10 @@ def cg_residuals(case, obs):
 
 
 def cg_oracle(case, obs):
+    if case.get('kind') == 'cg-seq':
+        return cg_seq_oracle(case, obs)
+    if case.get('kind') == 'cg-solvers':
+        return cg_solvers_oracle(case, obs)
     exp = cg_expected(case['plan'])
     rtol, atol, max_steps = CG_SOLVERS[exp['solver']]
     cap = obs['captured']
@@ -1259,19 +1998,41 @@ def cg_oracle(case, obs):
     return wrong
 
 
-def cg_tests(tier: str, seed: int):
-    cases = cg_cases(tier, seed)
+def cg_tests(tier: str, seed: int, part: int = 0, parts: int = 1):
+    """The CG cases number part, part + parts, ... (the list is deterministic in (tier, seed))."""
+    cases = cg_cases(tier, seed)[part::parts]
     total, worst, fails = 0, 0.0, []
     kinds = {}
     for case in cases:
         obs = lib.canon(run_cg_case(case))
         msg = cg_oracle(case, obs)
         kinds[case['kind']] = kinds.get(case['kind'], 0) + 1
-        rtol = CG_SOLVERS[cg_expected(case['plan'])['solver']][0]
-        ys = [y for _ in obs['applications'] for y in case['rhs']]
-        for y, res in zip(ys, cg_residuals(case, obs)):
-            total += 1
-            worst = max(worst, res / (10 * rtol * (1 + float(np.linalg.norm(y)))))
+        if case['kind'] == 'cg-seq':
+            M = np.array(case['matrix'], dtype=np.float64)
+            for step, so in zip(case['steps'], obs['steps']):
+                r, a, ms = CG_SOLVERS[{**CG_DEFAULTS, **step['settings']}['solver']]
+                for route in ('jit', 'eager'):
+                    for y, z in zip(case['rhs'], so[route]['solutions']):
+                        v = cg_solution(z)
+                        if ms >= 10 and v is not None:
+                            total += 1
+                            worst = max(worst, float(np.linalg.norm(step['scale'] * M @ v - np.array(y))) / (10 * max(r, a) * (1 + float(np.linalg.norm(y)))))
+        elif case['kind'] == 'cg-solvers':
+            spec = SOLVER_CLASSES[case['solver']]
+            tol = spec[1] if len(spec) == 3 else 1e-10
+            Amat = np.array(case['matrix'], dtype=np.float64)
+            for app in obs.get('applications', []):
+                for y, z in zip(case['rhs'], app['solutions']):
+                    v = cg_solution(z)
+                    if v is not None:
+                        total += 1
+                        worst = max(worst, float(np.linalg.norm(Amat @ v - np.array(y))) / (10 * tol * (1 + float(np.linalg.norm(y)))))
+        else:
+            rtol = CG_SOLVERS[cg_expected(case['plan'])['solver']][0]
+            ys = [y for _ in obs['applications'] for y in case['rhs']]
+            for y, res in zip(ys, cg_residuals(case, obs)):
+                total += 1
+                worst = max(worst, res / (10 * rtol * (1 + float(np.linalg.norm(y)))))
         if msg:
             fails.append({'case': case, 'observation': obs, 'oracle': msg})
     sizes = sorted({len(c['matrix']) for c in cases})
@@ -1282,7 +2043,7 @@ def cg_tests(tier: str, seed: int):
 if __name__ == '__main__':
     if len(sys.argv) >= 4 and sys.argv[1] == '--cg':
         sys.stdout = sys.stderr
-        rep = json.dumps(cg_tests(sys.argv[2], int(sys.argv[3])))
+        rep = json.dumps(cg_tests(sys.argv[2], int(sys.argv[3]), *[int(a) for a in sys.argv[4:6]]))
         sys.stdout = sys.__stdout__
         print(rep)
     elif len(sys.argv) >= 2 and sys.argv[1] == '--x64-server':
